@@ -3617,3 +3617,284 @@ func ruleAbsOfTheGivenPath(id string) func(*Checker) {
 		c.check(n > 0, id, p.FuncName(fn), "path made absolute", p.Pos(fn.Pos()), fmt.Sprintf("%d call(s)", n), "the reverse lookup no longer makes its path absolute")
 	}
 }
+
+// ---- round 18 ----
+
+// ruleRegistryRefusals — a registry request is refused on the builder's own judgement only when nothing offered is allowed.
+func ruleRegistryRefusals(id string) func(*Checker) {
+	return func(c *Checker) {
+		c.rule(id, "In the function that asks the registry for the source of a version (and what it reaches in the bundle package), an error made on the spot without the error of a failed call behind it is returned only past the equal edge of the comparison of the selection with the library's Unspecified sentinel — `nothing offered is allowed`. Any other refusal decided there (`two versions must not share a source address`, `the list looks odd`) turns a request that has an offered and allowed version into a failed build, whatever was resolved before.", 1)
+		p := c.P
+		var site *ssa.Call
+		for _, fn := range p.Funcs {
+			if !inBundlePkg(p, fn) {
+				continue
+			}
+			for _, ci := range callsIn(fn) {
+				if ci.Common().IsInvoke() && ci.Common().Method.Name() == "ModulePackageSourceAddr" {
+					site, _ = ci.(*ssa.Call)
+				}
+			}
+		}
+		if site == nil {
+			c.anchorMissing(id, "a call to RegistryClient.ModulePackageSourceAddr")
+			return
+		}
+		top := site.Parent()
+		n := 0
+		for _, fn := range sortedFuncs(p.reach(top)) {
+			if !inBundlePkg(p, fn) || (fn != top && !p.family(top)[fn]) {
+				continue
+			}
+			unspecT, _ := condEdges(fn, func(v ssa.Value) bool {
+				bo, ok := v.(*ssa.BinOp)
+				if !ok || bo.Op != token.EQL {
+					return false
+				}
+				isUnspec := func(x ssa.Value) bool {
+					u, ok := x.(*ssa.UnOp)
+					if !ok {
+						return false
+					}
+					g, ok := u.X.(*ssa.Global)
+					return ok && g.Name() == "Unspecified"
+				}
+				return isUnspec(bo.X) || isUnspec(bo.Y)
+			})
+			for _, ci := range callsIn(fn) {
+				cl, ok := ci.(*ssa.Call)
+				if !ok {
+					continue
+				}
+				o := calleeObj(cl)
+				if !(isFunc(o, "errors", "New") || isFunc(o, "fmt", "Errorf")) {
+					continue
+				}
+				hasCause := false
+				for _, a := range errorArgsOfFresh(cl) {
+					for w := range p.backSlice(a, 0) {
+						switch x := w.(type) {
+						case *ssa.Call:
+							if x != cl {
+								if res := x.Call.Signature().Results(); res.Len() > 0 && isErrorType(res.At(res.Len()-1).Type()) {
+									hasCause = true
+								}
+							}
+						case *ssa.Parameter:
+							if isErrorType(x.Type()) {
+								hasCause = true
+							}
+						}
+					}
+				}
+				if hasCause {
+					continue
+				}
+				if u := p.errorUses(fn, cl); !u.Returned && !u.PassedOn {
+					continue
+				}
+				n++
+				// nothing offered at all is a case of it: the empty edge of a length test of the offered versions
+				emptyT, _ := condEdges(fn, func(v ssa.Value) bool {
+					bo, ok := v.(*ssa.BinOp)
+					if !ok || bo.Op != token.EQL {
+						return false
+					}
+					if k, isC := constInt(bo.Y); !isC || k != 0 {
+						return false
+					}
+					l := lenOf(bo.X)
+					if l == nil {
+						return false
+					}
+					ts := l.Type().String()
+					return strings.HasSuffix(ts, "versions.List") || strings.HasSuffix(ts, "ModulePackageInfo")
+				})
+				if len(emptyT) > 0 && guarded(cl.Block(), emptyT) {
+					c.pass(id, p.FuncName(fn), fmt.Sprintf("refusal %d is 'nothing offered is allowed'", n), p.Pos(cl.Pos()), "made where the registry offers no version at all")
+					continue
+				}
+				c.check(len(unspecT) > 0 && guarded(cl.Block(), unspecT), id, p.FuncName(fn), fmt.Sprintf("refusal %d is 'nothing offered is allowed'", n), p.Pos(cl.Pos()), "made past selection == Unspecified", "a registry request is refused for a reason the builder decides by itself, other than that no offered version is allowed: requests that have an offered and allowed version fail")
+			}
+		}
+		c.check(n >= 1, id, p.FuncName(top), "the no-version refusal", p.Pos(top.Pos()), fmt.Sprintf("%d refusal(s)", n), "the refusal for 'no offered version is allowed' was not found")
+	}
+}
+
+// ruleMetaFromOwnFetch — what is recorded about a package is what its own fetch said.
+func ruleMetaFromOwnFetch(id string) func(*Checker) {
+	return func(c *Checker) {
+		c.rule(id, "The PackageMeta stored in Builder.remotePackageMeta under a package address derives from the response of that package's own FetchSourcePackage call and from nothing the builder remembers: no read of another Builder map (what an earlier package with the same tree reported) flows into the stored value. Metadata taken from whoever came first makes the manifest depend on the order in which packages were added or discovered.", 1)
+		p := c.P
+		n := 0
+		for _, fn := range p.Funcs {
+			if !inBundlePkg(p, fn) {
+				continue
+			}
+			eachInstr(fn, func(in ssa.Instruction) {
+				mu, ok := in.(*ssa.MapUpdate)
+				if !ok || builderMapOf(mu.Map) != "remotePackageMeta" {
+					return
+				}
+				n++
+				bad := ""
+				for w := range p.backSlice(mu.Value, 0) {
+					if lk, ok := w.(*ssa.Lookup); ok {
+						if f := builderMapOf(lk.X); f != "" {
+							bad = f
+						}
+					}
+				}
+				fromFetch := false
+				for w := range p.backSlice(mu.Value, 0) {
+					if cl, ok := w.(*ssa.Call); ok && cl.Call.IsInvoke() && cl.Call.Method.Name() == "FetchSourcePackage" {
+						fromFetch = true
+					}
+				}
+				c.check(bad == "" && fromFetch, id, p.FuncName(fn), "recorded metadata is the fetch's own", p.Pos(mu.Pos()), "derives from FetchSourcePackage's response only", "the metadata recorded for a package comes (also) from the builder's table "+bad+": what is recorded depends on which package was handled first")
+			})
+		}
+		c.check(n > 0, id, "-", "metadata recorded", "-", fmt.Sprintf("%d store(s)", n), "Builder.remotePackageMeta is never filled")
+	}
+}
+
+// ruleBundleFrozen — a bundle that has been opened does not change.
+func ruleBundleFrozen(id string) func(*Checker) {
+	return func(c *Checker) {
+		c.rule(id, "Outside what OpenDir reaches, nothing in the bundle package stores into a field of Bundle, updates one of its maps, or calls a writing method (Store, LoadOrStore, Swap, Delete, CompareAndSwap, Do) on one of its fields: the lookup methods answer from what the manifest said, the same for every lookup, whatever was asked before. A memo kept in the bundle answers a later question with an earlier answer as soon as its key says less than the question (the registry package without the sub-path).", 0)
+		c.absence(id)
+		p := c.P
+		open := p.Fn(bundlePkg, "OpenDir")
+		if open == nil {
+			c.anchorMissing(id, "OpenDir")
+			return
+		}
+		loading := p.reach(open)
+		isBundleField := func(v ssa.Value) (string, bool) {
+			fa, ok := v.(*ssa.FieldAddr)
+			if !ok || !isNamedT(derefType(fa.X.Type()), "Bundle") {
+				return "", false
+			}
+			return fieldOf(fa).Name(), true
+		}
+		for _, fn := range p.Funcs {
+			if !inBundlePkg(p, fn) || loading[fn] {
+				continue
+			}
+			name := p.FuncName(fn)
+			eachInstr(fn, func(in ssa.Instruction) {
+				switch x := in.(type) {
+				case *ssa.Store:
+					if f, ok := isBundleField(x.Addr); ok {
+						c.fail(id, name, "store into Bundle."+f, p.Pos(x.Pos()), "a field of an opened bundle is assigned outside OpenDir")
+					}
+				case *ssa.MapUpdate:
+					if f := bundleMapOf(x.Map); f != "" {
+						c.fail(id, name, "update of Bundle."+f, p.Pos(x.Pos()), "a table of an opened bundle is updated outside OpenDir: later lookups answer differently from earlier ones")
+					}
+				case ssa.CallInstruction:
+					cm := x.Common()
+					if cm.IsInvoke() || len(cm.Args) == 0 {
+						return
+					}
+					f, ok := isBundleField(cm.Args[0])
+					if !ok {
+						return
+					}
+					o := calleeObj(x)
+					if o == nil || objPkgPath(o) != "sync" {
+						return
+					}
+					switch o.Name() {
+					case "Store", "LoadOrStore", "Swap", "Delete", "LoadAndDelete", "CompareAndSwap", "CompareAndDelete", "Do":
+						c.fail(id, name, "sync."+o.Name()+" on Bundle."+f, p.Pos(x.Pos()), "state kept in an opened bundle is written by a lookup: what a lookup answers can depend on what was asked before")
+					}
+				}
+			})
+		}
+	}
+}
+
+// ruleBodyAlwaysCopied — a regular-file entry's content is what the archive says, every time.
+func ruleBodyAlwaysCopied(id string) func(*Checker) {
+	return func(c *Checker) {
+		c.rule(id, "In Unpack every metadata restore that runs inside the reading loop (the entry is a link or a regular file; directories are restored after the loop) lies behind os.Symlink or behind a copy from the archive reader (io.Copy / CopyN / CopyBuffer whose source is the tar reader) on every path from the loop header: a way round the copy — `the file is already there with this size and time` — leaves the content of an earlier entry (or of an earlier run) under the mode and time of the last one.", 1)
+		u := getUnpackCtx(c, id)
+		if u == nil {
+			return
+		}
+		p := c.P
+		fn := u.Unpack
+		name := p.FuncName(fn)
+		isWrite := func(in ssa.Instruction) bool {
+			cl, ok := in.(*ssa.Call)
+			if !ok {
+				return false
+			}
+			o := calleeObj(cl)
+			if isFunc(o, "os", "Symlink") {
+				return true
+			}
+			if isFunc(o, "io", "Copy") || isFunc(o, "io", "CopyN") || isFunc(o, "io", "CopyBuffer") {
+				// the source is the archive reader
+				for w := range p.backSlice(cl.Call.Args[1], 0) {
+					if t := w.Type(); t != nil && strings.HasSuffix(t.String(), "archive/tar.Reader") {
+						return true
+					}
+				}
+			}
+			// a module helper that does the copy
+			if g := cl.Call.StaticCallee(); g != nil && p.InModule(g) {
+				for _, k := range callsIn(g) {
+					if ko := calleeObj(k); isFunc(ko, "io", "Copy") || isFunc(ko, "io", "CopyN") || isFunc(ko, "io", "CopyBuffer") || isFunc(ko, "os", "Symlink") {
+						return true
+					}
+				}
+			}
+			return false
+		}
+		// the reading loop: the one the archive reader's Next is called in
+		var readHead *ssa.BasicBlock
+		for _, ci := range callsIn(fn) {
+			if isMethod(calleeObj(ci), "archive/tar", "Reader", "Next") && inLoop(ci.Block()) {
+				readHead = loopHeadOf(ci.Block())
+			}
+		}
+		if readHead == nil {
+			c.anchorMissing(id, "the loop calling (*tar.Reader).Next in Unpack")
+			return
+		}
+		n := 0
+		for _, ci := range callsIn(fn) {
+			cl, ok := ci.(*ssa.Call)
+			if !ok || !inLoop(cl.Block()) {
+				continue
+			}
+			o := calleeObj(cl)
+			if o == nil || o.Name() != "RestoreInfo" {
+				continue
+			}
+			head := loopHeadOf(cl.Block())
+			if head != readHead {
+				continue // the directories' restores, after the archive has been read
+			}
+			n++
+			// blocks reachable from the header without passing a block that writes (before the restore)
+			writes := map[*ssa.BasicBlock]bool{}
+			for _, b := range fn.Blocks {
+				for _, in := range b.Instrs {
+					if in == ssa.Instruction(cl) {
+						break
+					}
+					if isWrite(in) {
+						writes[b] = true
+					}
+				}
+			}
+			reachable := reachAvoiding(head, writes)
+			bad := reachable[cl.Block()] && !writes[cl.Block()]
+			c.check(!bad, id, name, fmt.Sprintf("restore %d follows the entry's own write", n), p.Pos(cl.Pos()), "every way to the restore passes os.Symlink or the copy from the archive", "the entry's mode and time can be restored on a path that has not written the entry's content from the archive (the copy is skipped): the file keeps what an earlier entry or an earlier run put there")
+		}
+		c.check(n >= 1, id, name, "restores inside the loop", p.Pos(fn.Pos()), fmt.Sprintf("%d restore(s)", n), "no metadata restore inside the reading loop found")
+	}
+}
